@@ -1,9 +1,10 @@
 #!/bin/bash
 # tools/allseeds_src.sh [name-prefix]  — like allseeds.sh, but never touches /repo: every seeded change is applied to
 # a scratch worktree (/tmp/wt/allseeds) and the checks read the library sources from there (VERIF_SRC, see build.sh).
-# Runs from a throw-away copy of /verif. One line per seed; exit 1 if a seed was missed.
-WT=/tmp/wt/allseeds
-V=/tmp/vcopy.allseeds
+# Runs from a throw-away copy of /verif. One line per seed; exit 1 if a seed was missed. INST=<suffix> lets several
+# instances (different name prefixes) run side by side.
+WT=/tmp/wt/allseeds${INST:-}
+V=/tmp/vcopy.allseeds${INST:-}
 git -C /repo worktree remove --force $WT 2>/dev/null
 git -C /repo worktree add --detach $WT HEAD >/dev/null 2>&1 || { echo "cannot create worktree"; exit 2; }
 rm -rf $V; mkdir -p $V; rsync -a --exclude .git --exclude bin --exclude replays --exclude evidence /verif/ $V/
